@@ -842,6 +842,9 @@ hwloc_backend_synthetic_init(struct hwloc_synthetic_backend_data_s *data,
     count++;
   }
 
+  /* the last level has no children: interleaving lookups below stop there */
+  data->level[count-1].arity = 0;
+
   /* set default attributes that depend on the depth/hierarchy of levels */
   for (i=0; i<count; i++) {
     struct hwloc_synthetic_attached_s *attached;
